@@ -6,7 +6,8 @@ An experiment is described by a small spec dict
     {"name": "E1", "seed": 11, "tails": 1.0, "unmapped": 3, "depth": [4, 8], "files": 1}
 `tails`  – fraction of reads that carry a soft-clipped polyA (3' end, '+') / polyT (5' end, '-') tail,
 `unmapped` – number of unaligned records in (the first of) its BAM file(s),
-`files`  – number of BAM files (libraries) the reads are dealt into.
+`files`  – number of BAM files (libraries) the reads are dealt into,
+`dups`   – number of spliced reads whose record is written twice (exact duplicates).
 """
 import os
 import random
@@ -103,6 +104,13 @@ def make_reads(world, spec):
             e = [(ex[0][0] + rng.randint(0, 3), ex[0][1]), (ex[1][0], ex[1][1] - rng.randint(0, 3))]
             n += 1
             _tailed(ds, "%s_r%d_nov" % (nm, n), chrom, strand, e, rng.random() < tails)
+    # exactly duplicated records (the same alignment of the same read written twice, as in carelessly
+    # concatenated BAM files): `dups` distinct spliced reads are written a second time
+    if spec.get("dups", 0):
+        spliced = [r for r in ds.reads if "N" in r["cigar"] and not r["name"].endswith("_nov")]
+        step = max(1, len(spliced) // spec["dups"])
+        for r in spliced[::step][:spec["dups"]]:
+            ds.reads.append(dict(r))
     for i in range(spec.get("unmapped", 0)):
         ds.add_read("%s_u%d" % (nm, i), "chr1", 0, "", flag=4, seq="ACGTTGCA" * 8)
     reads = ds.reads
